@@ -26,6 +26,11 @@ var walkExceptions = []walkException{
 	{"ir.markStmtExprRefsForCompact/StatementKind", "StmtImageAtomic.Fun", "image atomics carry no Compare handle (rule imageatomic.nocompare)"},
 	{"ir.remapStmtExprHandlesCompact/StatementKind", "StmtImageAtomic.Fun", "image atomics carry no Compare handle (rule imageatomic.nocompare)"},
 	{"ir.remapStmtExprHandles/StatementKind", "StmtImageAtomic.Fun", "image atomics carry no Compare handle (rule imageatomic.nocompare)"},
+	// --- mem2reg use classification only looks for direct ExprLocalVariable pointer operands
+	{"dxil/internal/passes/mem2reg.collectExpressionHandles/ExpressionKind", "ExprImageSample.Level", "level/bias/gradient operands are values, never pointers to locals; the collector only classifies direct uses of ExprLocalVariable pointers (triaged: omission harmless, findings/D4/notes.md)"},
+	{"dxil/internal/passes/mem2reg.collectExpressionHandles/ExpressionKind", "ExprImageQuery.Query", "the image-query level operand is a value, never a pointer to a local (findings/D4/notes.md)"},
+	{"dxil/internal/passes/mem2reg.collectExpressionHandles/ExpressionKind", "ExprPhi", "phi incomings are values created by mem2reg itself, never local-variable pointers (findings/D4/notes.md)"},
+	{"dxil/internal/passes/mem2reg.collectExpressionHandles/ExpressionKind", "ExprRayQueryGetIntersection", "the operand points at a ray_query local, whose type is never promotable (findings/D4/notes.md)"},
 	// --- "does this block end in a return / contain a loop-level break" predicates: a loop body is not a fall-through path
 	{"wgsl/internal/lower.ensureBlockReturns/StatementKind", "StmtLoop", "return-path analysis: a value returned inside a loop does not make the enclosing block return on all paths; loops are deliberately not descended"},
 	{"hlsl/internal/codegen.hlslBlockEndsWithReturn/StatementKind", "StmtLoop", "ends-with-return predicate: loops are deliberately not descended"},
